@@ -117,8 +117,8 @@ theorem validIdentifier_bytes {s : List UInt8} {name : String} (h : validIdentif
     exact Utf8.ascii_utf8 s hc.1.1.2
   · simp at h
 
-theorem key_eval {api : EvalApi} {good : Expr → Prop} (hs : EvalSound api good) {k : Expr} {name : String}
-    (hk : KeyOk api good k name) {N : NumOps} (call : CallFn N) (ρ : ExtOracle N) (n : Nat) (env : Env N)
+theorem key_eval {N : NumOps} {api : EvalApi} {good : Expr → Prop} (hs : EvalSound N api good) {k : Expr} {name : String}
+    (hk : KeyOk api good k name) (call : CallFn N) (ρ : ExtOracle N) (n : Nat) (env : Env N)
     (σ σ' : State N) (vs : List (Val N)) (h : evalE call ρ n env k σ = .ok vs σ') :
     σ' = σ ∧ first vs = strVal name := by
   have hc := hk.conv
@@ -130,8 +130,8 @@ theorem key_eval {api : EvalApi} {good : Expr → Prop} (hs : EvalSound api good
     rw [hs.str k s hk.good hkind call ρ n env σ σ' vs h, strVal, validIdentifier_bytes hc]
   | _ => simp [hkind] at hc
 
-theorem index_refines {api : EvalApi} {good : Expr → Prop} (hs : EvalSound api good) {p k : Expr} {name : String}
-    (hk : KeyOk api good k name) {N : NumOps} (call : CallFn N) (ρ : ExtOracle N) (n : Nat) (env : Env N)
+theorem index_refines {N : NumOps} {api : EvalApi} {good : Expr → Prop} (hs : EvalSound N api good) {p k : Expr} {name : String}
+    (hk : KeyOk api good k name) (call : CallFn N) (ρ : ExtOracle N) (n : Nat) (env : Env N)
     (σ σ' : State N) (vs : List (Val N)) (h : evalE call ρ n env (.index p k) σ = .ok vs σ') :
     evalE call ρ n env (convertIndex api (.index p k)) σ = .ok vs σ' := by
   simp only [convertIndex, hk.conv, evalE] at h ⊢
@@ -147,8 +147,8 @@ theorem index_refines {api : EvalApi} {good : Expr → Prop} (hs : EvalSound api
       obtain ⟨rfl, hv⟩ := key_eval hs hk call ρ n env σ1 σ2 ks hkv
       simpa [hkv, hv] using h
 
-theorem target_refines {api : EvalApi} {good : Expr → Prop} (hs : EvalSound api good) {p k : Expr} {name : String}
-    (hk : KeyOk api good k name) {N : NumOps} (call : CallFn N) (ρ : ExtOracle N) (n : Nat) (env : Env N)
+theorem target_refines {N : NumOps} {api : EvalApi} {good : Expr → Prop} (hs : EvalSound N api good) {p k : Expr} {name : String}
+    (hk : KeyOk api good k name) (call : CallFn N) (ρ : ExtOracle N) (n : Nat) (env : Env N)
     (σ σ' : State N) (tg : Target N) (h : evalTarget call ρ n env (.index p k) σ = .ok tg σ') :
     evalTarget call ρ n env (convertIndex api (.index p k)) σ = .ok tg σ' := by
   simp only [convertIndex, hk.conv, evalTarget] at h ⊢
@@ -165,8 +165,8 @@ theorem target_refines {api : EvalApi} {good : Expr → Prop} (hs : EvalSound ap
       simpa [hkv, hv] using h
 
 /-- one `[key] = value` entry at the head of a constructor -/
-theorem entry_refines {api : EvalApi} {good : Expr → Prop} (hs : EvalSound api good) {k v : Expr} {name : String}
-    (hk : KeyOk api good k name) {N : NumOps} (call : CallFn N) (ρ : ExtOracle N) (n : Nat) (env : Env N)
+theorem entry_refines {N : NumOps} {api : EvalApi} {good : Expr → Prop} (hs : EvalSound N api good) {k v : Expr} {name : String}
+    (hk : KeyOk api good k name) (call : CallFn N) (ρ : ExtOracle N) (n : Nat) (env : Env N)
     (t i : Nat) (rest : List Entry) (σ σ' : State N)
     (h : evalEntries call ρ n env t i (.keyed k v :: rest) σ = .ok () σ') :
     evalEntries call ρ n env t i (convertEntry api (.keyed k v) :: rest) σ = .ok () σ' := by
